@@ -183,21 +183,24 @@ class PendingIf(_PendingCompoundStmt[If]):
         body = self.nsp_global.expr_wraper(self.converted_body)
         orelse = self.nsp_global.expr_wraper(self.converted_orelse)
         if self.nsp_global.configs.if_style == "short_circuit":
+            if isinstance(self.node.test, BoolOp):
+                # an and/or condition used as an operand would hand the operand
+                # that decided it on to the next test; a conditional expression
+                # tests each operand once
+                test_once = IfExp(
+                    test=test,
+                    body=Constant(value=True),
+                    orelse=Constant(value=False),
+                )
+            else:
+                test_once = None
             if len(self.converted_orelse) > 0:
                 # a one-element list: true whatever the body evaluates to, and the
                 # value of the body itself (a user object) is never truth-tested
                 body_or_true = List(elts=[body], ctx=Load())
-                # `not not`: a condition that is false must not be tested
-                # a second time by the `or` that selects the other branch
-                if isinstance(self.node.test, BoolOp):
-                    # `not (a or b)` would test the operand that decided `a or b`
-                    # once more; a conditional expression tests each operand once
-                    test_once = IfExp(
-                        test=test,
-                        body=Constant(value=True),
-                        orelse=Constant(value=False),
-                    )
-                else:
+                if test_once is None:
+                    # `not not`: a condition that is false must not be tested
+                    # a second time by the `or` that selects the other branch
                     test_once = UnaryOp(
                         op=Not(), operand=UnaryOp(op=Not(), operand=test)
                     )
@@ -208,7 +211,9 @@ class PendingIf(_PendingCompoundStmt[If]):
                     return [BoolOp(op=Or(), values=[semi_if, *orelse.values])]
                 return [BoolOp(op=Or(), values=[semi_if, orelse])]
             else:
-                return [BoolOp(op=And(), values=[test, body])]
+                if test_once is None:
+                    test_once = test
+                return [BoolOp(op=And(), values=[test_once, body])]
         else:  # if_style=="if_expr"
             return [IfExp(test=test, body=body, orelse=orelse)]
 
